@@ -157,7 +157,10 @@ def _g_model_view(w, ents=None):
             e = w.ents[fid]
             if kind == "directory":
                 if fid in live:
-                    out[pth] = ("directory", None, False)
+                    # a directory that vanished from disk (with everything below it) is still listed because of its
+                    # versioned content, but has no kind on disk (wt.kind raises NoSuchFile -> None in the real view)
+                    gone = e.missing or gen._under_missing(w, fid)
+                    out[pth] = (None, None, False) if gone else ("directory", None, False)
             elif e.missing or gen._under_missing(w, fid):
                 out[pth] = (None, None, False)
             else:
@@ -209,7 +212,8 @@ def _g_cmp(ctx, w, wt, where, ops):
         if q in mv and q not in rv and mv[q][0] is None and w.ents[i].kind == "symlink":
             del mv[q]
             ctx.hist("git-missing-symlink-not-listed")
-    for q in sorted((q for q, v in mv.items() if v[0] == "directory"), key=lambda x: -x.count("/")):
+    mpaths = w.paths()
+    for q in sorted((q for q in mv if q in mpaths and w.ents[mpaths[q]].kind == "directory"), key=lambda x: -x.count("/")):
         if q not in rv and not any(r.startswith(q + "/") for r in mv):
             del mv[q]  # a directory whose only versioned content is such an unlisted symlink
     ctx.count("git_cmp_tree")
